@@ -843,54 +843,121 @@ func (c *Ctx) checkCoerceDegree() {
 	}
 }
 
-// callsAlongFold binds the first parameter of fn to the constant recv, follows only feasible branches
-// (conditions that fold), explores both sides of conditions that do not fold, and returns the constant
-// value of argument argIdx of every call to callee encountered, in first-visit order.
+// callsAlongFold binds the first parameter of fn to the constant recv and explores the function path by path with the
+// constant folder: branches whose condition folds are followed, the others fork. It returns the constant value of
+// argument argIdx of every call to callee along the longest path, in execution order; every other path must be a
+// prefix of it (the function tries the same candidates in the same order and merely stops earlier on success).
+// Tables and loops over immutable package-level literals are folded, so a switch and a table-driven loop look alike.
 func (c *Ctx) callsAlongFold(fn *ssa.Function, recv int64, callee string, argIdx int) ([]int64, error) {
-	env := map[ssa.Value]fval{fn.Params[0]: {k: constant.MakeInt64(recv), t: fn.Params[0].Type()}}
 	f := c.newFolder()
-	var out []int64
-	seen := map[*ssa.BasicBlock]bool{}
-	var walk func(b *ssa.BasicBlock) error
-	walk = func(b *ssa.BasicBlock) error {
-		if seen[b] {
-			return nil
-		}
-		seen[b] = true
-		for _, in := range b.Instrs {
-			switch x := in.(type) {
-			case *ssa.BinOp:
-				env[x] = foldBinOp(x.Op, f.val(env, x.X), f.val(env, x.Y), x.Type())
-			case *ssa.Call:
-				if calleeName(&x.Call) == callee {
-					if v, ok := constInt(x.Call.Args[argIdx]); ok {
-						out = append(out, v)
-					} else {
-						return fmt.Errorf("argument %d of %s is not constant", argIdx, callee)
-					}
-				}
-			case *ssa.If:
-				cv := f.val(env, x.Cond)
-				if cv.k != nil && cv.k.Kind() == constant.Bool {
-					if constant.BoolVal(cv.k) {
-						return walk(b.Succs[0])
-					}
-					return walk(b.Succs[1])
-				}
-				if err := walk(b.Succs[0]); err != nil {
-					return err
-				}
-				return walk(b.Succs[1])
-			case *ssa.Jump:
-				return walk(b.Succs[0])
-			}
-		}
-		return nil
+	f.depth = 1
+	type state struct {
+		b, prev *ssa.BasicBlock
+		env     map[ssa.Value]fval
+		mem     map[*ssa.Alloc]fval
+		calls   []int64
 	}
-	if err := walk(fn.Blocks[0]); err != nil {
+	var results [][]int64
+	steps := 0
+	var run func(st state) error
+	run = func(st state) error {
+		for {
+			steps++
+			if steps > 4000 {
+				return fmt.Errorf("path exploration of %s exceeds its budget", fname(fn))
+			}
+			phiVals := map[ssa.Value]fval{}
+			for _, in := range st.b.Instrs {
+				p, ok := in.(*ssa.Phi)
+				if !ok {
+					break
+				}
+				phiVals[p] = top
+				for i, pb := range st.b.Preds {
+					if pb == st.prev {
+						phiVals[p] = f.val(st.env, p.Edges[i])
+					}
+				}
+			}
+			for k, v := range phiVals {
+				st.env[k] = v
+			}
+			var next *ssa.BasicBlock
+			for _, in := range st.b.Instrs {
+				switch x := in.(type) {
+				case *ssa.Phi:
+					continue
+				case *ssa.If:
+					cv := f.val(st.env, x.Cond)
+					if cv.k != nil && cv.k.Kind() == constant.Bool {
+						if constant.BoolVal(cv.k) {
+							next = st.b.Succs[0]
+						} else {
+							next = st.b.Succs[1]
+						}
+						break
+					}
+					for _, s := range st.b.Succs {
+						env2 := make(map[ssa.Value]fval, len(st.env))
+						for k, v := range st.env {
+							env2[k] = v
+						}
+						mem2 := make(map[*ssa.Alloc]fval, len(st.mem))
+						for k, v := range st.mem {
+							mem2[k] = v
+						}
+						if err := run(state{s, st.b, env2, mem2, append([]int64{}, st.calls...)}); err != nil {
+							return err
+						}
+					}
+					return nil
+				case *ssa.Jump:
+					next = st.b.Succs[0]
+				case *ssa.Return:
+					results = append(results, st.calls)
+					return nil
+				case *ssa.Panic:
+					return nil
+				case *ssa.Call:
+					if calleeName(&x.Call) == callee {
+						av := f.val(st.env, x.Call.Args[argIdx])
+						if av.k == nil || av.k.Kind() != constant.Int {
+							return fmt.Errorf("argument %d of %s is not constant", argIdx, callee)
+						}
+						n, _ := constant.Int64Val(av.k)
+						st.calls = append(st.calls, n)
+						st.env[x] = top
+						continue
+					}
+					f.evalInstr(st.env, st.mem, in)
+				default:
+					f.evalInstr(st.env, st.mem, in)
+				}
+			}
+			if next == nil {
+				return fmt.Errorf("fell off block %d of %s", st.b.Index, fname(fn))
+			}
+			st.prev, st.b = st.b, next
+		}
+	}
+	env := map[ssa.Value]fval{fn.Params[0]: {k: constant.MakeInt64(recv), t: fn.Params[0].Type()}}
+	if err := run(state{fn.Blocks[0], nil, env, map[*ssa.Alloc]fval{}, nil}); err != nil {
 		return nil, err
 	}
-	return out, nil
+	var longest []int64
+	for _, r := range results {
+		if len(r) > len(longest) {
+			longest = r
+		}
+	}
+	for _, r := range results {
+		for i := range r {
+			if r[i] != longest[i] {
+				return nil, fmt.Errorf("paths of %s try different candidates (%v vs %v)", fname(fn), r, longest)
+			}
+		}
+	}
+	return longest, nil
 }
 
 // ---------------------------------------------------------------------------
@@ -932,7 +999,7 @@ func ruleTabNotation(c *Ctx) {
 	}
 	var cands []struct {
 		symbol, name string
-		pos           token.Pos
+		pos          token.Pos
 	}
 	found := false
 	ast.Inspect(fd.Body, func(n ast.Node) bool {
@@ -967,7 +1034,7 @@ func ruleTabNotation(c *Ctx) {
 			}
 			cands = append(cands, struct {
 				symbol, name string
-				pos           token.Pos
+				pos          token.Pos
 			}{sym, nm, lv.Poss[i]})
 		}
 		found = true
